@@ -1,0 +1,24 @@
+//go:build verif
+
+package announce
+
+// VerifLRU exposes the announce duplicate filter to a verification harness, so
+// that it can be driven with capacities other than the Receiver's fixed one.
+type VerifLRU struct{ l *stringLRU }
+
+func NewVerifLRU(maxEntries int) *VerifLRU { return &VerifLRU{l: newStringLRU(maxEntries)} }
+func (v *VerifLRU) Update(s string) bool   { return v.l.update(s) }
+func (v *VerifLRU) Remove(s string) bool   { return v.l.remove(s) }
+func (v *VerifLRU) Len() int               { return v.l.len() }
+
+// Keys returns the cached strings, most recently used first.
+func (v *VerifLRU) Keys() []string {
+	keys := make([]string, 0, v.l.ll.Len())
+	for e := v.l.ll.Front(); e != nil; e = e.Next() {
+		keys = append(keys, e.Value.(string))
+	}
+	return keys
+}
+
+// VerifCacheSize is the capacity of the Receiver's duplicate filter.
+const VerifCacheSize = announceCacheSize
